@@ -717,7 +717,14 @@ def compare_run(res, case, out, ans_run, ans_wb, ans_neg):
             return
     # the recorded contract of the optimiser: a broken contract is reported, and is what the
     # theorems assume — it is a divergence of the *assumption*, checked before the conclusions
-    if not ans_run['contract']:
+    lbub_c = [case['bounds'][n] for n in out['order']]
+    # the optimiser may return a point one rounding error beyond a bound (observed: 0.33000000000000024 for an upper
+    # bound 0.33); the stated tolerance on bounds is 1e-10, the model's exact test is then repeated with that tolerance
+    rounding_only = (case['algo'] in BOUND_AWARE and not ans_run['in_box'] and in_box(out['xstar'], lbub_c, 1e-10)
+                     and len(out['xstar']) == len(out['x0']) and out['re']['L'] >= out['L0'])
+    if rounding_only:
+        res.tally('bound_exceeded_by_rounding_only(<=1e-10)')
+    if not ans_run['contract'] and not rounding_only:
         res.diverge('OptContract does not hold on this run (dimension / feasibility when bound-aware / no increase of -L)', case, True,
                     {'x': out['xstar'], 'L0': out['L0'], 'L': out['re']['L']}, where='optimizer contract')
         return
@@ -738,7 +745,7 @@ def compare_run(res, case, out, ans_run, ans_wb, ans_neg):
     if case['quick']:
         if not (out['g'] is None and out['H'] is None and out['bhhh'] is None):
             res.diverge('quick_estimate reports no derivatives', case, None, [out['g'], out['H']], where=W)
-    if expected_aware and not ans_run['in_box']:
+    if expected_aware and not ans_run['in_box'] and not rounding_only:
         res.diverge('x* in the box (result_consistent)', case, True, out['xstar'], where=W)
     # KKT relation with the algorithm's tolerance, whenever convergence by the gradient criterion is reported
     if out['converged']:
@@ -1135,7 +1142,9 @@ class OptRecorder:
                     out = _fn(fct, init_betas, bounds, variable_names, parameters)
                 finally:
                     TRACE['current'] = prev
-                cur.update({'xstar': [float(v) for v in out[0]], 'converged': bool(out[2])})
+                msgs = dict(out[1]) if isinstance(out[1], dict) else {}
+                cur.update({'xstar': [float(v) for v in out[0]], 'converged': bool(out[2]), 'cause': str(msgs.get('Cause of termination', '')),
+                            'relgrad': None if 'Relative gradient' not in msgs else float(msgs['Relative gradient'])})
                 self.calls.append(cur)
                 return out
             self.opt.algorithms[name] = wrapped
@@ -1156,7 +1165,9 @@ def read_report(r):
         'g': None if d.g is None else [float(v) for v in np.asarray(d.g, dtype=float)],
         'H': None if d.H is None else np.asarray(d.H, dtype=float).tolist(),
         'bhhh': None if d.bhhh is None else np.asarray(d.bhhh, dtype=float).tolist(),
-        'converged': bool(d.convergence),
+        'converged': bool(d.convergence), 'has_converged': bool(r.algorithm_has_converged()),
+        'cause': str(dict(d.optimizationMessages).get('Cause of termination', '')),
+        'relgrad': None if 'Relative gradient' not in dict(d.optimizationMessages) else float(dict(d.optimizationMessages)['Relative gradient']),
         'bootstrap': None if d.bootstrap is None else np.asarray(d.bootstrap, dtype=float).tolist(),
         'nullLogLike': None if d.nullLogLike is None else float(d.nullLogLike),
     }
@@ -1252,7 +1263,8 @@ def _run_session(out, case, tag):
         out['opt_calls'].extend(rec.calls)
         live.append(r)
         out['reports'].append({'made_by': 'quick_estimate' if quick else 'estimate', 'step': step_index, 'boot': boot, 'boot_tags': tags,
-                               'started_from': list(rec.calls[0]['x0']) if rec.calls else None, 'reads': []})
+                               'started_from': list(rec.calls[0]['x0']) if rec.calls else None,
+                               'main': {k: rec.calls[0].get(k) for k in ('converged', 'cause', 'relgrad')} if rec.calls else None, 'reads': []})
 
     ops = [{'op': 'estimate', 'boot': case['boot']}] + list(case['ops'])
     for i, op in enumerate(ops):
@@ -1376,6 +1388,24 @@ def oracle_session(case, out):
                 for key, name in (('g', 'gradient'), ('H', 'Hessian'), ('bhhh', 'BHHH')):
                     if rd[key] is None or not close_vec(rd[key], ref[key]):
                         flag(key, f'{who}, {when}: reported {name} is not the {name} of the likelihood at the reported estimates', rd[key], ref[key], W)
+            # the convergence a results object reports is the one of the run that produced its estimates (the first call of
+            # the algorithm during that estimate/quick_estimate; the bootstrap re-estimations come after it)
+            main = rep.get('main')
+            if main is not None and (rd['converged'] != main['converged'] or rd['has_converged'] != main['converged'] or rd['cause'] != main['cause']
+                                     or not (rd['relgrad'] == main['relgrad'] or (rd['relgrad'] is not None and main['relgrad'] is not None and f2b(rd['relgrad']) == f2b(main['relgrad'])))):
+                flag('status', f'{who}, {when}: the convergence status / messages reported are not those of the optimisation that produced the estimates',
+                     {k: rd[k] for k in ('converged', 'has_converged', 'cause', 'relgrad')}, main, W)
+            # (d) convergence reported: the gradient (recomputed independently at the reported estimates) vanishes in every
+            # direction not blocked by an active bound, with the tolerance of the criterion the report itself names
+            if rd['converged']:
+                tols = kkt_tolerances(case, {'cause': rd['cause'], 'xstar': rd['x'], 'L0': L0, 'logLike': rd['logLike']})
+                if tols is not None:
+                    for i2, (x, gi, (lb, ub)) in enumerate(zip(rd['x'], ref['g'], lbub)):
+                        up_blocked = aware and ub is not None and x >= ub - max(1e-9, tols[i2])
+                        down_blocked = aware and lb is not None and x <= lb + max(1e-9, tols[i2])
+                        if (gi > tols[i2] and not up_blocked) or (gi < -tols[i2] and not down_blocked):
+                            flag('kkt', f'{who}, {when}: convergence reported but the gradient at the reported estimates does not vanish in a free direction (parameter {order[i2]})',
+                                 gi, f'|g| <= {tols[i2]:.3g}', 'BIOGEME.optimize')
             if len(bad) > 4:
                 return bad
     # (e) after an estimation, until the user sets other starting values: formulas hold the estimates; fixed parameters never move
@@ -1512,6 +1542,9 @@ def compare_session(res, case, out, ans):
                 res.diverge(f'results object {k}, {when}: estimates vs what the optimiser returned (Estimate.run)', case, [b2f(v) for v in m['x']], rd['x'], where=W)
             if not core.close(b2f(m['logLike']), rd['logLike'], 1e-11):
                 res.diverge(f'results object {k}, {when}: logLike (Estimate.run)', case, b2f(m['logLike']), rd['logLike'], where=W)
+            if m['converged'] != rd['converged']:
+                res.diverge(f'results object {k}, {when}: convergence flag vs the one the optimiser returned for the run that produced the estimates (Estimate.run)', case,
+                            m['converged'], rd['converged'], where=W)
             mi = None if m['initLogLike'] is None else b2f(m['initLogLike'])
             if (mi is None) != (rd['initLogLike'] is None) or (mi is not None and not core.close(mi, rd['initLogLike'], 1e-11)):
                 res.diverge(f'results object {k}, {when}: initLogLike (Estimate.run: likelihood at id_manager.free_betas_values for estimate, the stored one for quick_estimate)',
@@ -1963,16 +1996,32 @@ def gen_session(rng, problem, configs, algo, scenario=None):
         # the everyday sequence: estimate, set other starting values (all of them), estimate again, look at both results
         pt = gen_point(rng, problem, bounds)
         ops = [{'op': 'change', 'vals': dict(pt)}, {'op': 'estimate', 'boot': rng.choice([0, 0, 2])}] + ops[:2]
+    elif scenario == 'shortboot':
+        ops = ops[:1]
     elif scenario == 'inspect':
         # estimate, evaluate everything somewhere else (both matrices), then read the results
         ops = [{'op': 'eval', 'at': gen_point(rng, problem, bounds), 'scaled': rng.random() < 0.5, 'hessian': True, 'bhhh': True}] + ops[:2]
-    return {'kind': 'session', 'problem': problem, 'x0': start_point(rng, problem, bounds, rng.choice(['zero', 'rand'])), 'bounds': bounds, 'bcfg': bname,
+    case = {'kind': 'session', 'problem': problem, 'x0': start_point(rng, problem, bounds, rng.choice(['zero', 'rand'])), 'bounds': bounds, 'bcfg': bname,
             'algo': algo, 'cfg': gen_cfg(rng), 'boot': rng.choice([0, 0, 2, 3]), 'ops': ops, 'np_seed': rng.randint(0, 2 ** 31 - 1)}
+    if scenario == 'shortboot':
+        # an iteration budget too small from a remote start but possibly sufficient from x*, where every bootstrap
+        # re-estimation starts: the main run and the re-estimations do not end with the same status
+        far = {}
+        for n in problem['names']:
+            lb, ub = bounds[n]
+            v = rng.choice([-1, 1]) * rng.choice([2.0, 3.0, 4.0])
+            v = v if lb is None else max(v, lb)
+            v = v if ub is None else min(v, ub)
+            far[n] = float(v)
+        case['x0'] = far
+        case['cfg'] = dict(case['cfg'], max_iterations=rng.choice([2, 3, 4, 5, 6]))
+        case['boot'] = rng.choice([2, 3, 4])
+    return case
 
 
 def run_sessions(ctx, res, rng, problem, configs, tagc, algos, n):
     for i in range(n):
-        case = gen_session(rng, problem, configs, algos[tagc[1] % len(algos)], scenario={0: 'restart', 1: 'inspect'}.get(i))
+        case = gen_session(rng, problem, configs, algos[tagc[1] % len(algos)], scenario={0: 'restart', 1: 'inspect', 2: 'shortboot', 3: 'shortboot'}.get(i))
         tagc[1] += 1
         check_session(ctx, res, case, tagc)
         if len(res.violations) > 6:
@@ -2181,7 +2230,7 @@ def search(ctx, res, broken):
                     return
             for k, algo in enumerate(ALGOS):
                 tag += 1
-                case = gen_session(rng, problem, configs, algo, scenario={0: 'restart', 1: 'inspect'}.get(k % 4))
+                case = gen_session(rng, problem, configs, algo, scenario={0: 'restart', 1: 'inspect', 2: 'shortboot', 3: 'shortboot'}.get(k % 4))
                 bad = oracle_session(case, run_session(case, f'c07ss_{tag}'))
                 if bad:
                     what, obs, exp, where = bad[0]
